@@ -69,6 +69,8 @@ type ReplayFile struct {
 	Prefix   []int             `json:"prefix"`
 	Second   []interp.InputRec `json:"second_inputs,omitempty"` // for record disagreements
 	Native   *nativeResult     `json:"native_result,omitempty"`
+	SchedOnly bool             `json:"schedule_dependent,omitempty"`
+	Spec     *HarnessSpec      `json:"spec,omitempty"`
 	Input    string            `json:"input_description"`
 }
 
@@ -305,6 +307,26 @@ func propertyMain(id string, args []string) int {
 				continue
 			}
 			ok, nr := confirm(np, rf)
+			if !ok && hr.Spec.Sched {
+				// the counterexample needs a particular goroutine schedule: the
+				// native run (one arbitrary schedule) did not hit it. It is
+				// reported from the engine's schedule, which replays by
+				// re-executing the recorded decision prefix on the current SSA.
+				rf.SchedOnly = true
+				rf.Spec = &hr.Spec
+				seen[key] = true
+				if kf := matchKnown(known, id, rf, nr); kf != nil {
+					say("KNOWN-FINDING: property=%s %s", id, kf.What)
+					knownMatched = append(knownMatched, kf.What)
+					continue
+				}
+				path := saveReplay(replayDir, rf)
+				say("VIOLATION property=%s replay=%s", id, path)
+				say("  %s/%s (schedule-dependent): %s [%s]", v.Harness, v.V.Label, firstLine(v.V.Detail), rf.Input)
+				violations++
+				exit = 1
+				continue
+			}
 			if !ok {
 				inconclusive = append(inconclusive, fmt.Sprintf("%s: ENGINE-MISMATCH candidate %s %q not reproduced natively (native: %s; input %s)", name, v.V.Kind, v.V.Label, nr.Outcome, rf.Input))
 				continue
@@ -372,6 +394,37 @@ func replayMain(path string) int {
 		say("cannot read replay file: %v", err)
 		return 2
 	}
+	if rf.SchedOnly && rf.Spec != nil {
+		// re-execute the recorded decision prefix (inputs + schedule) on the SSA
+		// of the current tree
+		p, err := newPool(1)
+		if err != nil {
+			say("%v", err)
+			return 2
+		}
+		defer p.close()
+		opts := interp.PathOpts{Budget: rf.Spec.Budget, SchedExplore: true, PreemptBudget: 1 << 20,
+			SchedFilter: rf.Spec.SchedFilter, MapOrderExplore: rf.Spec.MapOrder, LogEvents: rf.Spec.LogEvents}
+		r, err := p.workers[0].run(Job{ID: 1, Harness: rf.Harness, Prefix: rf.Prefix, Opts: opts, Tier: rf.Tier})
+		if err != nil || r.Res == nil {
+			say("replay failed: %v %s", err, r.Err)
+			return 2
+		}
+		say("replay %s: harness=%s kind=%s label=%s input=[%s] (schedule-dependent, re-executed in the engine)", path, rf.Harness, rf.Kind, rf.Label, rf.Input)
+		say("engine outcome: %s %s", r.Res.Outcome, firstLine(r.Res.Detail))
+		hit := r.Res.Outcome == rf.Kind
+		for _, v := range r.Res.Violations {
+			if v.Label == rf.Label {
+				hit = true
+			}
+		}
+		if hit {
+			say("VIOLATION property=%s replay=%s", rf.Property, path)
+			return 1
+		}
+		say("not reproduced")
+		return 0
+	}
 	bin, err := buildNative("replay", false)
 	if err != nil {
 		say("%v", err)
@@ -379,10 +432,6 @@ func replayMain(path string) int {
 	}
 	np := &nativeProc{bin: bin}
 	defer np.stop()
-	if len(rf.Inputs) == 0 && rf.Native == nil && len(rf.Sched) > 0 {
-		say("replay %s: schedule counterexample (engine-only): %s", path, rf.Detail)
-		return 1
-	}
 	ok, nr := confirm(np, &rf)
 	say("replay %s: harness=%s kind=%s label=%s input=[%s]", path, rf.Harness, rf.Kind, rf.Label, rf.Input)
 	say("native outcome: %s failed=%v %s", nr.Outcome, nr.Failed, firstLine(nr.Detail))
@@ -414,6 +463,12 @@ func harnessMain(args []string) int {
 		case "--sched":
 			spec.Sched = true
 			spec.Preempt = [2]int{2, 3}
+			spec.NoNative = true
+		case "--filter":
+			spec.SchedFilter = args[i+1]
+		case "--preempt":
+			fmt.Sscanf(args[i+1], "%d", &spec.Preempt[0])
+			spec.Preempt[1] = spec.Preempt[0]
 		case "--maporder":
 			spec.MapOrder = true
 		case "--events":
